@@ -55,7 +55,8 @@ Proof.
   destruct (cap >=? compressBound n);
     (match goal with |- 0 < a_ret (compress_generic_nodict ?c ?s ?n ?cp ?od ?t ?sm ?ac) -> _ =>
        pose proof (compress_generic_nodict_sound c s n cp od t sm ac Hs ltac:(discriminate) Hacc
-                     ltac:(cbn; lia) ltac:(cbn; lia) (tab_ok_init t sm) (ttype_for_u16 n)) as H
+                     ltac:(cbn; lia) ltac:(cbn; lia) (tab_ok_init t sm) (ttype_for_u16 n)
+                     ltac:(intros Et _; left; pose proof (ttype_for_u16 _ Et); cbn; unfold LZ4_64Klimit, MFLIMIT in *; lia)) as H
      end; cbv zeta in H; intros Hr; destruct H as (_ & _ & H); destruct (H Hr) as (_ & _ & C);
      destruct (Z.eq_dec n 0) as [->|Hn0]; [|apply C; exact Hn0];
      unfold compress_generic_nodict; cbn;
@@ -94,11 +95,13 @@ Proof.
     pose proof (compress_validated_fill_contract vrd (ttype_for n) CNoDict false 0 0 empty 0 n target (clamp_accel accel)
                   (fun a => Hs (a - 0)) ltac:(lia) ltac:(lia) Ht 0 ltac:(lia)) as F.
     assert (Hdt : CNoDict = CUsingDictCtx -> forall h, get empty h + 0 < 0 /\
-                    good (ttype_for n) CNoDict false 0 0 (get empty h + 0)) by discriminate.
+                    good3 (ttype_for n) CNoDict false 0 0 (get empty h + 0)) by discriminate.
     assert (Hu : dist_active (ttype_for n) = false -> 0 + n - MFLIMIT - hist_lo CNoDict 0 0 <= 65535).
     { unfold dist_active, hist_lo. destruct (ttype_for n) eqn:Et; [discriminate|]. intros _.
       pose proof (ttype_for_u16 n Et). unfold LZ4_64Klimit, MFLIMIT in *. lia. }
-    specialize (F Hdt Hu Hacc empty (tab_ok_init (ttype_for n) false)).
+    assert (Hidx : ttype_for n = ByU16 -> mflimitPlusOne 0 n <= 65536 \/ (false = true /\ 65536 <= 0 - 0 /\ 0 <= 0)).
+    { intros Et. left. pose proof (ttype_for_u16 _ Et). unfold mflimitPlusOne, iend, LZ4_64Klimit, MFLIMIT in *. lia. }
+    specialize (F Hdt Hu ltac:(lia) Hidx Hacc empty (tab_ok_init (ttype_for n) false)).
     destruct F as (ss & last & consumed & tab' & hw & Feq & F1 & F2 & F3 & F4).
     rewrite Feq. cbn [a_ret a_hw a_consumed a_out].
     unfold hist_lo in F4. rewrite (seg_nil vrd 0 0) in F4 by lia.
